@@ -199,7 +199,8 @@ pub fn spmat_ops_small(s: &mut Src) -> R {
     use yui_matrix::sparse::SpMat;
     use yui_matrix::MatTrait;
     use yui_matrix::sparse::pivot::perms_by_pivots;
-    let (m, n, k) = (s.small(1, 4) as usize, s.small(1, 4) as usize, s.small(1, 4) as usize);
+    // (a zero dimension is allowed: the property names it)
+    let (m, n, k) = (s.small(0, 4) as usize, s.small(0, 4) as usize, s.small(0, 4) as usize);
     let mut ea = vec![0i64; 16]; let mut eb = vec![0i64; 16]; let mut ec = vec![0i64; 16];
     for x in ea.iter_mut().chain(eb.iter_mut()).chain(ec.iter_mut()) { let v = s.small(-5, 5); *x = if v.abs() > 3 { 0 } else { v }; }
     let (r0, r1, c0, c1) = (s.small(0, 4) as usize, s.small(0, 4) as usize, s.small(0, 4) as usize, s.small(0, 4) as usize);
@@ -275,7 +276,7 @@ pub fn spvec_mat_ops_small(s: &mut Src) -> R {
     use yui_matrix::sparse::{SpMat, SpVec};
     use yui_matrix::MatTrait;
     use yui_matrix::sparse::pivot::perms_by_pivots;
-    let (m, n) = (s.small(1, 4) as usize, s.small(1, 4) as usize);
+    let (m, n) = (s.small(0, 4) as usize, s.small(0, 4) as usize);
     let mut ea = vec![0i64; 16]; let mut eb = vec![0i64; 16];
     for x in ea.iter_mut().chain(eb.iter_mut()) { let v = s.small(-5, 5); *x = if v.abs() > 3 { 0 } else { v }; }
     let mut ev = vec![0i64; 4]; let mut ew = vec![0i64; 4];
@@ -289,8 +290,7 @@ pub fn spvec_mat_ops_small(s: &mut Src) -> R {
     ob!(v.dim() == n && v.to_dense() == dv && v.clone().into_vec() == dv, "SpVec::from/to_dense/into_vec/dim");
     ob!(v.is_zero() == dv.iter().all(|&x| x == 0), "SpVec::is_zero");
     ob!(SpVec::<i64>::zero(n).to_dense() == vec![0; n] && SpVec::<i64>::zero(n).is_zero(), "SpVec::zero");
-    let u = a0 % n; let mut du = vec![0i64; n]; du[u] = 1;
-    ob!(SpVec::<i64>::unit(n, u).to_dense() == du, "SpVec::unit");
+    if n > 0 { let u = a0 % n; let mut du = vec![0i64; n]; du[u] = 1; ob!(SpVec::<i64>::unit(n, u).to_dense() == du, "SpVec::unit"); }
     ob!((&v + &w).to_dense() == (0..n).map(|i| dv[i] + dw[i]).collect::<Vec<_>>(), "SpVec::add");
     ob!((&v - &w).to_dense() == (0..n).map(|i| dv[i] - dw[i]).collect::<Vec<_>>(), "SpVec::sub");
     ob!((-&v).to_dense() == dv.iter().map(|x| -x).collect::<Vec<_>>(), "SpVec::neg");
